@@ -4,7 +4,7 @@ From GmVerif Require Import Base.Bytes Hash.Instances Tls.Record12 Tls.Record13 
 Extraction Language OCaml.
 Extraction "../ocaml/gen/ModelC08.ml"
   Z.of_N N.of_nat
-  observe12_sm4 observe13_sm4 sm4_rk_bytes
+  observe12_sm4 observe13_sm4 observe13_msgs_sm4 sm4_rk_bytes cv13_content ske12_signed ske_tlcp_signed cv_tlcp_signed cv12_signed
   tls_prf prf_spec hkdf_expand_label derive_secret hkdf_extract13 verify_data13
   master_secret12 key_block12 client_finished12 server_finished12
   send1 recv1 write_all dsend dwrite drecv duplex_init c2s s2c dir_init max_plain cap13 chan rbuf sseq rseq.
